@@ -45,3 +45,22 @@ Proof. exact vd_parse_dump. Qed.
 
 Theorem c01_kdf_of_vd_perm : forall k seed d, Permutation d (vd_of_kdf k seed) -> kdf_of_vd d = Ok (k, seed).
 Proof. exact kdf_of_vd_perm. Qed.
+
+(* ---------------- protected values and the inner stream (models xml/XmlDump.v, xml/XmlParse.v) ----
+   The reader of the object mapping consumes the key stream exactly as the writer does: after the
+   document it stands at the sum of the lengths of the protected values, wherever they occur (meta
+   custom data, entries, history entries, entry and group custom data), so the n-th protected value
+   in document order receives the n-th consecutive slice. *)
+From KP Require Import XmlTypes XmlDump XmlParse XmlSpec XmlStream XmlRoundTrip XmlAlign XmlTotal.
+Theorem c01_reader_follows_the_stream :
+  forall (gzip : bytes -> bytes) (gunzip : bytes -> option bytes) (c : content) (ks : bytes) (rest : list ev),
+  wf_content gzip gunzip c = true -> bytes_ok ks = true ->
+  p_keepass gunzip (length (dump_events gzip c ks ++ rest)) (dump_events gzip c ks ++ rest) ks
+  = Ok (c, rest, LE.drop (total_length (protected_values_in_order c)) ks).
+Proof. exact parse_dump_stream. Qed.
+
+Theorem c01_nth_value_nth_slice :
+  forall (l : list bytes) (ks : bytes) (i : nat) (p : bytes),
+  nth_error l i = Some p ->
+  nth_error (enc_stream l ks) i = Some (xor_ks p (LE.drop (total_length (firstn i l)) ks)).
+Proof. exact enc_stream_nth. Qed.
